@@ -28,7 +28,7 @@ function in /repo/src plus the logged edits; nothing else.
 import re
 import os
 import json
-from rscan import code_mask, match_close, find_code, find_container, find_fn, line_of, ScanError
+from rscan import code_mask, match_close, find_code, find_container, find_fn, line_of, ScanError  # noqa
 
 
 class Undecided(Exception):
@@ -82,6 +82,7 @@ class FnSpec:
         self.recommends = []
         self.attrs = []
         self.mutself = False
+        self.canary_inplace = False
         self.key = None
         self.src_span = None
         self.gen_span = None
@@ -243,6 +244,8 @@ class Unit:
                 spec.attrs.append(rest); cur = None
             elif word == 'mutself':
                 spec.mutself = True; cur = None
+            elif word == 'canary':
+                spec.canary_inplace = (rest.strip() == 'inplace'); cur = None
             elif word == 'ret':
                 spec.ret = rest; cur = None
             elif word in ('requires', 'ensures'):
@@ -584,60 +587,110 @@ class Unit:
         # ---- emit -----------------------------------------------------------------------
         gen.lines.append('// ---- extracted fn %s from %s:%d-%d' % (spec.key, f, src_first, src_last))
         gfirst = len(gen.lines) + 1
+        self.emit_fn_text(gen, spec, hdr, body, loop_marks, None)
+        spec.gen_span = (gfirst, len(gen.lines))
+        gen.fns.append(spec)
+        gen.clauses += spec.requires + spec.ensures
+        for ls in spec.loops.values():
+            gen.clauses += ls.inv + ls.inv_except_break + ls.ensures
+        if canary:
+            # vacuity canary: a copy of the function (same contract, same body) with the extra clause
+            # `ensures false`, which must FAIL.  It is a copy so that callers never see the false clause.
+            c = Clause('CANARY-' + spec.key, 'ensures', [], spec.key)
+            c.text = 'false\n'
+            if spec.canary_inplace:
+                # trait-impl methods cannot be duplicated; they are not called by other extracted code
+                del gen.lines[gfirst - 1:]
+                self.emit_fn_text(gen, spec, hdr, body, loop_marks, c)
+                spec.gen_span = (gfirst, len(gen.lines))
+            else:
+                hdr2 = re.sub(r'\bfn\s+(\w+)', lambda m: 'fn ' + m.group(1) + '__canary', hdr, count=1)
+                gen.lines.append('// ---- vacuity canary copy of %s' % spec.key)
+                self.emit_fn_text(gen, spec, hdr2, body, loop_marks, c, register=False)
+            gen.clauses.append(c)
+
+    def emit_fn_text(self, gen, spec, hdr, body, loop_marks, canary_clause, register=True):
         for a in spec.attrs:
             gen.lines.append(a)
         for ln in hdr.rstrip().split('\n'):
             gen.lines.append(ln)
-        self.emit_clauses(gen, 'requires', spec.requires)
+        self.emit_clauses(gen, 'requires', spec.requires, register)
         ens = list(spec.ensures)
-        if canary:
-            c = Clause('CANARY-' + spec.key, 'ensures', [], spec.key)
-            c.text = 'false\n'
-            ens.append(c)
-        self.emit_clauses(gen, 'ensures', ens)
-        # body, with loop clause placeholders expanded
+        self.emit_clauses(gen, 'ensures', ens, register, extra=canary_clause)
         parts = re.split(r'\x00LOOPCLAUSES(\d+)\x00', body)
         byid = {str(id(ls)): ls for ls in loop_marks}
-        src_line = line_of(text, bopen)
         for idx, part in enumerate(parts):
             if idx % 2 == 1:
-                ls = byid[part]
-                self.emit_loop_clauses(gen, ls)
+                self.emit_loop_clauses(gen, byid[part], register)
                 continue
-            plines = part.split('\n')
-            for k, ln in enumerate(plines):
-                if k == 0 and idx > 0 and gen.lines:
-                    gen.lines.append(ln)
-                else:
-                    gen.lines.append(ln)
-        spec.gen_span = (gfirst, len(gen.lines))
-        gen.fns.append(spec)
-        gen.clauses += spec.requires + ens
-        for ls in spec.loops.values():
-            gen.clauses += ls.inv + ls.inv_except_break + ls.ensures
+            for ln in part.split('\n'):
+                gen.lines.append(ln)
 
     def render_loop_clauses(self, ls):
         return ''
 
-    def emit_clauses(self, gen, kw, clauses):
-        if not clauses:
+    def emit_clauses(self, gen, kw, clauses, register=True, extra=None):
+        if not clauses and extra is None:
             return
         gen.lines.append('    ' + kw)
-        for c in clauses:
+        for c in list(clauses) + ([extra] if extra is not None else []):
             first = len(gen.lines) + 1
             gen.lines.append('        // %s %s' % (c.id, ' '.join(c.props)))
             gen.lines.append('        (')
             for ln in c.text.rstrip('\n').split('\n'):
                 gen.lines.append('        ' + ln)
             gen.lines.append('        ),')
-            c.gen_lines = (first, len(gen.lines))
+            if register or c is extra:
+                c.gen_lines = (first, len(gen.lines))
 
-    def emit_loop_clauses(self, gen, ls):
+    def emit_loop_clauses(self, gen, ls, register=True):
         gen.lines.append('')
-        self.emit_clauses(gen, 'invariant_except_break', ls.inv_except_break)
-        self.emit_clauses(gen, 'invariant', ls.inv)
-        self.emit_clauses(gen, 'ensures', ls.ensures)
+        self.emit_clauses(gen, 'invariant_except_break', ls.inv_except_break, register)
+        self.emit_clauses(gen, 'invariant', ls.inv, register)
+        self.emit_clauses(gen, 'ensures', ls.ensures, register)
         if ls.decreases:
             gen.lines.append('    decreases')
             for ln in ls.decreases:
                 gen.lines.append('        ' + ln)
+
+
+# ---------------------------------------------------------------------------
+def trusted_items(gen):
+    """names of assumed contracts in the generated unit (external_body fns, assume_specification targets)"""
+    out = []
+    lines = gen.lines
+    for i, ln in enumerate(lines):
+        s = ln.strip()
+        m = re.search(r'assume_specification(?:<[^\[]*>)?\s*\[\s*([^\]]+?)\s*\]', s)
+        if m:
+            out.append('assume_specification: ' + ' '.join(m.group(1).split()))
+        if 'external_body' in s and not s.startswith('//'):
+            # name of the next fn / struct
+            for j in range(i, min(i + 6, len(lines))):
+                m2 = re.search(r'\b(?:proof\s+)?fn\s+(\w+)|\bstruct\s+(\w+)', lines[j])
+                if m2:
+                    out.append('external_body: ' + (m2.group(1) or m2.group(2)))
+                    break
+    return sorted(set(out))
+
+
+CHEATS = re.compile(r'\b(assume|admit)\s*\(')
+
+
+def scan_spliced_for_cheats(gen):
+    """`assume`/`admit` are never allowed, neither in spliced proof text nor in extracted bodies"""
+    for i, ln in enumerate(gen.lines):
+        s = ln.split('//')[0]
+        if CHEATS.search(s) and 'assume_specification' not in s:
+            return 'line %d: %s' % (i + 1, ln.strip()[:80])
+    return None
+
+
+def baseline_count(path, unit, prop):
+    if not os.path.exists(path):
+        return None
+    for ln in open(path):
+        parts = ln.split()
+        if len(parts) == 3 and parts[0] == unit and parts[1] == prop:
+            return int(parts[2])
+    return None
